@@ -38,10 +38,12 @@ impl Graph {
     }
 }
 
-#[derive(Clone, Copy)]
+#[derive(Clone, Copy, PartialEq)]
 pub struct VData {
     pub ty: VType,
     pub phase: i64,
+    pub qubit: f64,
+    pub row: f64,
 }
 pub trait GraphLike {
     fn degree(&self, v: V) -> usize;
@@ -58,6 +60,41 @@ pub trait GraphLike {
     fn add_to_vars(&mut self, v: V, vars: &Vec<u32>);
     fn remove_vertex(&mut self, v: V);
     fn vertex_vec(&self) -> Vec<V>;
+    fn vertex_data_mut(&mut self, v: V) -> &mut VData {
+        unimplemented!()
+    }
+    fn add_vertex_with_data(&mut self, d: VData) -> V {
+        unimplemented!()
+    }
+    fn add_named_vertex_with_data(&mut self, v: V, d: VData) -> Result<(), &str> {
+        unimplemented!()
+    }
+    fn set_edge_type(&mut self, s: V, t: V, ety: EType) {
+        unimplemented!()
+    }
+    fn remove_edge(&mut self, s: V, t: V) {
+        unimplemented!()
+    }
+    fn find_edge<F: Fn(V, V, EType) -> bool>(&self, f: F) -> Option<(V, V, EType)> {
+        unimplemented!()
+    }
+    fn find_vertex<F: Fn(V) -> bool>(&self, f: F) -> Option<V> {
+        unimplemented!()
+    }
+    fn contains_vertex(&self, v: V) -> bool {
+        unimplemented!()
+    }
+    fn outputs_mut(&mut self) -> &mut Vec<V> {
+        unimplemented!()
+    }
+    fn pack(&mut self, force: bool) {}
+    /// control (C09 R-TABLE-accessor): the row setter writes the qubit field
+    fn set_row(&mut self, v: V, row: f64) {
+        self.vertex_data_mut(v).qubit = row;
+    }
+    fn set_qubit(&mut self, v: V, qubit: f64) {
+        self.vertex_data_mut(v).qubit = qubit;
+    }
 }
 
 /// control: index before bound test in one && chain
